@@ -1,4 +1,4 @@
 #!/bin/bash
 # re-evaluates every seeded change under /tmp/wt-out with the current checks (properties in parallel, changes of one property in sequence)
-run_prop(){ P=$1; for M in $(ls /tmp/wt-out/$P 2>/dev/null | grep '^m'); do extra=""; [ "$P" = C11 ] && extra="C18"; /verif/tools_eval_seed.sh $P $M $extra > /tmp/ev_$P$M.log 2>&1; done; }
+run_prop(){ P=$1; for M in $(ls ${SEED_ROOT:-/tmp/wt-out}/$P 2>/dev/null | grep "^m"); do extra=""; [ "$P" = C11 ] && extra="C18"; /verif/tools_eval_seed.sh $P $M $extra > /tmp/ev_$P$M.log 2>&1; done; }
 for P in "$@"; do run_prop $P & done; wait
